@@ -311,7 +311,8 @@ FlushValid(s, n, f) ==
     IN  /\ f.rel \subseteq parked /\ f.relFail \subseteq parked /\ f.heldRel \subseteq heldn /\ f.heldFail \subseteq heldn
         /\ f.rel \cap f.relFail = {} /\ f.heldRel \cap f.heldFail = {}
         /\ Cardinality(f.relFail) + Cardinality(f.heldFail) <= 1
-        /\ (f.relFail = {} /\ f.heldFail = {}) => (f.rel = parked /\ f.heldRel = heldn)
+        \* without a fault everything parked for the node goes out (a superseded entry may have been dropped)
+        /\ (f.relFail = {} /\ f.heldFail = {}) => ({k \in parked : ~s.setbuf[k].sup} \subseteq f.rel /\ f.heldRel = heldn)
 
 VersionQuery == Msg(0, SysChild, C_INTERNAL, 0, I_VERSION, "")
 
@@ -331,7 +332,9 @@ Recv(s, ev, ch) ==
                ELSE IF relFailed THEN Err({"Transport"}, -1)
                ELSE b.out
     IN  [nodes  |-> b.nodes, ver |-> b.ver, proto |-> b.proto,
-         setbuf |-> IF doFlush THEN Without(s.setbuf, ch.rel) ELSE s.setbuf,
+         setbuf |-> IF doFlush
+                    THEN Without(s.setbuf, ch.rel \cup (IF relFailed THEN {} ELSE {k \in ParkedOf(s.setbuf, m.n) : s.setbuf[k].sup}))
+                    ELSE s.setbuf,
          held   |-> IF doFlush THEN Without(s.held, ch.heldRel) ELSE s.held,
          asked  |-> IF presOk THEN b.asked \cup {m.n} ELSE b.asked,
          out    |-> out,
@@ -361,9 +364,14 @@ Send(s, ev, ch) ==
         sleeping == m.n \in DOMAIN s.nodes /\ s.nodes[m.n].sl
     IN  IF m.cmd = C_SET THEN
             IF ev.buf /\ sleeping
-            THEN [Quiet(s, Done) EXCEPT !.setbuf = Upd(s.setbuf, KeyOf(m), [ack |-> m.ack, p |-> m.p])]
+            THEN [Quiet(s, Done) EXCEPT !.setbuf = Upd(s.setbuf, KeyOf(m), [ack |-> m.ack, p |-> m.p, sup |-> FALSE])]
             ELSE IF ch.sendFail THEN Quiet(s, Err({"Transport"}, -1))
-            ELSE [Quiet(s, Done) EXCEPT !.react = <<m>>]
+            \* written at once.  A command still parked for the same key (the node presented itself again,
+            \* or buffering was switched off for this call) is superseded: whether it is still released at
+            \* the next wake or dropped is not determined by C07 - both are allowed.
+            ELSE [Quiet(s, Done) EXCEPT !.react = <<m>>,
+                                        !.setbuf = IF KeyOf(m) \in DOMAIN s.setbuf
+                                                   THEN [s.setbuf EXCEPT ![KeyOf(m)].sup = TRUE] ELSE s.setbuf]
         ELSE  \* other commands: written now | held for a sleeping destination | library error
             IF ch.alt = "hold" /\ ev.buf /\ sleeping THEN [Quiet(s, Done) EXCEPT !.held = Upd(s.held, m, (IF m \in DOMAIN s.held THEN s.held[m] ELSE 0) + 1)]
             ELSE IF ch.alt = "error" \/ ch.sendFail THEN Quiet(s, Err(LibClasses, -1))
@@ -399,7 +407,8 @@ FlushChoices(s, ev, hint, faultable) ==
                relFail  |-> {k \in parked : ParkedMsg(s.setbuf, k) \in hint.relFail /\ ParkedMsg(s.setbuf, k) \notin hint.rel},
                heldRel  |-> heldn \cap hint.rel,
                heldFail |-> (heldn \cap hint.relFail) \ hint.rel]}
-        ELSE {[rel |-> parked, relFail |-> {}, heldRel |-> heldn, heldFail |-> {}]}
+        ELSE {[rel |-> parked, relFail |-> {}, heldRel |-> heldn, heldFail |-> {}],
+              [rel |-> {k \in parked : ~s.setbuf[k].sup}, relFail |-> {}, heldRel |-> heldn, heldFail |-> {}]}
              \cup (IF faultable
                    THEN {[rel |-> c[1], relFail |-> {c[2]}, heldRel |-> {}, heldFail |-> {}] :
                            c \in {c \in (SUBSET parked) \X parked : c[2] \notin c[1]}}
